@@ -44,6 +44,24 @@ pub enum Aff {
     Blob,
 }
 
+/// column constraints a table got from the CREATE TABLE that actually created it
+#[derive(Clone, Copy, PartialEq, Eq)]
+pub struct Cons {
+    pub notnull: [bool; NC],
+    pub has_dflt: [bool; NC],
+    pub dflt: [i64; NC],
+    pub uniq: [bool; NC],
+}
+pub const NOCONS: Cons = Cons { notnull: [false; NC], has_dflt: [false; NC], dflt: [0; NC], uniq: [false; NC] };
+/// an index, identified by its name slot (IF NOT EXISTS is about the name)
+#[derive(Clone, Copy, PartialEq, Eq)]
+pub struct Index {
+    pub exists: bool,
+    pub unique: bool,
+    pub cols: [bool; NC],
+}
+pub const NOINDEX: Index = Index { exists: false, unique: false, cols: [false; NC] };
+
 #[derive(Clone, Copy, PartialEq, Eq)]
 pub struct Table {
     pub created: bool,
@@ -51,8 +69,10 @@ pub struct Table {
     pub rowid: [u32; NR],
     pub next_rowid: u32,
     pub rows: [[Val; NC]; NR],
+    pub cons: Cons,
+    pub idx: [Index; 2],
 }
-pub const EMPTY_TABLE: Table = Table { created: false, used: [false; NR], rowid: [0; NR], next_rowid: 1, rows: [[Val::Null; NC]; NR] };
+pub const EMPTY_TABLE: Table = Table { created: false, used: [false; NR], rowid: [0; NR], next_rowid: 1, rows: [[Val::Null; NC]; NR], cons: NOCONS, idx: [NOINDEX; 2] };
 
 #[derive(Clone, Copy, PartialEq, Eq)]
 pub struct Db {
@@ -307,11 +327,16 @@ fn conns() -> &'static mut Conns {
     unsafe { &mut CONNS }
 }
 
-pub fn create_table(c: usize, ti: usize, if_not_exists: bool, same_schema: bool) -> StmtResult {
+pub fn create_table(c: usize, ti: usize, if_not_exists: bool, same_schema: bool, cons: &Cons) -> StmtResult {
     // CREATE ... IF NOT EXISTS on an existing object only reads the schema: no write lock needed
     if !(db().t[ti].created && if_not_exists) {
-        if let Some(e) = write_gate(c) {
-            return e;
+        // schema set-up runs in autocommit mode before any transaction: it needs the write lock,
+        // but it is not a "write outside the transaction begun by txn()"
+        unsafe {
+            if WRITER != MAXCONN && WRITER != c {
+                mon().busy = true;
+                return StmtResult::Busy;
+            }
         }
     }
     if db().t[ti].created {
@@ -329,7 +354,104 @@ pub fn create_table(c: usize, ti: usize, if_not_exists: bool, same_schema: bool)
         mon().schema_mismatch = true;
     }
     db().t[ti].created = true;
+    db().t[ti].cons = *cons;
     StmtResult::Changed(0)
+}
+/// CREATE [UNIQUE] INDEX IF NOT EXISTS <name slot> ON table (cols): a no-op if an index of that
+/// name exists (whatever its definition -- an upgraded database keeps its old index)
+pub fn create_index(c: usize, ti: usize, slot: usize, cols: [bool; NC], unique: bool) -> StmtResult {
+    if !db().t[ti].created {
+        return StmtResult::SchemaError;
+    }
+    if db().t[ti].idx[slot].exists {
+        return StmtResult::Changed(0);
+    }
+    // schema set-up runs in autocommit mode before any transaction: it needs the write lock, but it
+    // is not a "write outside the transaction begun by txn()"
+    unsafe {
+        if WRITER != MAXCONN && WRITER != c {
+            mon().busy = true;
+            return StmtResult::Busy;
+        }
+    }
+    if unique {
+        // existing duplicates make the creation fail
+        let mut i = 0;
+        while i < NR {
+            let mut j = 0;
+            while j < i {
+                if db().t[ti].used[i] && db().t[ti].used[j] && same_key(&db().t[ti].rows[i], &db().t[ti].rows[j], &cols) {
+                    return StmtResult::Constraint;
+                }
+                j += 1;
+            }
+            i += 1;
+        }
+    }
+    db().t[ti].idx[slot] = Index { exists: true, unique, cols };
+    StmtResult::Changed(0)
+}
+/// two rows collide under a UNIQUE key over `cols`: all key columns equal and non-NULL
+fn same_key(a: &[Val; NC], b: &[Val; NC], cols: &[bool; NC]) -> bool {
+    let mut any = false;
+    let mut eq = true;
+    let mut k = 0;
+    while k < NC {
+        if cols[k] {
+            any = true;
+            if matches!(a[k], Val::Null) || matches!(b[k], Val::Null) || !sql_eq(&a[k], &b[k]) {
+                eq = false;
+            }
+        }
+        k += 1;
+    }
+    any && eq
+}
+/// row `new` (to be stored in slot `at`, NR = a new row) against NOT NULL and the UNIQUE keys of the
+/// table (other than the primary key, which `insert` handles with its conflict clause);
+/// returns the slot of a row it collides with, or NR
+fn unique_clash(ti: usize, at: usize, new: &[Val; NC]) -> usize {
+    let mut hit = NR;
+    let mut i = 0;
+    while i < NR {
+        if db().t[ti].used[i] && i != at {
+            let mut q = 0;
+            while q < 2 {
+                let ix = db().t[ti].idx[q];
+                if ix.exists && ix.unique && same_key(&db().t[ti].rows[i], new, &ix.cols) {
+                    hit = i;
+                }
+                q += 1;
+            }
+            let mut k = 0;
+            while k < NC {
+                if db().t[ti].cons.uniq[k] && !matches!(new[k], Val::Null) && sql_eq(&db().t[ti].rows[i][k], &new[k]) {
+                    hit = i;
+                }
+                k += 1;
+            }
+        }
+        i += 1;
+    }
+    hit
+}
+fn null_in_notnull(ti: usize, new: &[Val; NC]) -> bool {
+    let mut k = 0;
+    let mut bad = false;
+    while k < NC {
+        if db().t[ti].cons.notnull[k] && matches!(new[k], Val::Null) {
+            bad = true;
+        }
+        k += 1;
+    }
+    bad
+}
+/// UPDATE: the new content of row `at` must respect the table's constraints
+pub fn check_row(ti: usize, at: usize, new: &[Val; NC]) -> Option<StmtResult> {
+    if null_in_notnull(ti, new) || unique_clash(ti, at, new) != NR {
+        return Some(StmtResult::Constraint);
+    }
+    None
 }
 pub fn schema_noop(_c: usize, ti: usize) -> StmtResult {
     if !db().t[ti].created {
@@ -427,7 +549,7 @@ pub fn write_gate(c: usize) -> Option<StmtResult> {
     }
     None
 }
-pub fn insert(c: usize, ti: usize, mut row: [Val; NC], conflict: Conflict) -> StmtResult {
+pub fn insert(c: usize, ti: usize, mut row: [Val; NC], listed: [bool; NC], conflict: Conflict) -> StmtResult {
     if let Some(e) = write_gate(c) {
         return e;
     }
@@ -436,8 +558,36 @@ pub fn insert(c: usize, ti: usize, mut row: [Val; NC], conflict: Conflict) -> St
     }
     let mut k = 0;
     while k < NC {
+        // a column the statement does not list gets its DEFAULT; so does an explicit NULL in a
+        // NOT NULL column under OR REPLACE
+        let cons = db().t[ti].cons;
+        if cons.has_dflt[k] && (!listed[k] || (matches!(row[k], Val::Null) && cons.notnull[k] && matches!(conflict, Conflict::Replace))) {
+            row[k] = Val::Int(cons.dflt[k]);
+        }
         row[k] = store(ti, k, row[k]);
         k += 1;
+    }
+    if null_in_notnull(ti, &row) {
+        return match conflict {
+            Conflict::Ignore => StmtResult::Changed(0),
+            _ => StmtResult::Constraint,
+        };
+    }
+    let clash = unique_clash(ti, NR, &row);
+    if clash != NR {
+        match conflict {
+            Conflict::Abort => return StmtResult::Constraint,
+            Conflict::Ignore => return StmtResult::Changed(0),
+            Conflict::Replace => {
+                let mut j = 0;
+                while j < NR {
+                    if j == clash {
+                        db().t[ti].used[j] = false;
+                    }
+                    j += 1;
+                }
+            }
+        }
     }
     let pk = PK_COL[ti];
     let mut dup = NR;
